@@ -186,14 +186,46 @@ def register(R):
     for cname in ("DispatchPoolingTrip", "ServicingPoolingTrip"):
         s = R.spec(key(cname, "exit"), arg_types={"next_state": VST()})
         s.opaque = True
-        s.assume_only("pooling state exit: body out of reach (zip(*plan), reduce over symbolic plan)")
+        if cname == "ServicingPoolingTrip":
+            s.assume_only("pooling state exit: body out of reach (zip(*plan), reduce over symbolic plan)")
+        else:
+            # DispatchPoolingTrip.exit is verified from its body (contracts/pooling.py: modify_vehicle_assignment); with an
+            # empty plan the body raises at `req_ids, _ = tuple(zip(*plan))` -- enter refuses empty plans, no_raise not claimed
+            def dp_exit_records(a, r):
+                i = bound(IntT, "i_dpx")
+                plan = a.self.trip_plan
+                rid = Sym(plan.ty.elem, plan.e[i.e])[0]
+                return Implies(ok(r), forall([i], Implies(And(i >= 0, i < plan.len(), a.sim.requests.has(rid)), And(
+                    r[1].val().requests.has(rid), r[1].val().requests.get(rid).val().dispatched_vehicle.is_none()))))
+            s.ensures("releases_every_request_of_the_plan", dp_exit_records, ("C17",))
+            s.ensures("never_refuses", lambda a, r: Or(ok(r), failed(r)), ("C17", "C09"))
         s.requires("wf", WF_PRE)
         s.ensures("shape", SHAPE)
-        s.ensures("frame", lambda a, r: Implies(ok(r), And(
-            same_except(r[1].val(), a.sim, ["requests"]), wf(r[1].val()))))
+        s.ensures("frame", (lambda cname: lambda a, r: Implies(ok(r), And(
+            same_except(r[1].val(), a.sim, ["requests"] if cname == "ServicingPoolingTrip" else ["requests", "r_locations", "r_search"]),
+            wf(r[1].val()))))(cname))
         s = R.spec(key(cname, "enter"))
         s.opaque = True
-        s.assume_only("pooling state enter: body out of reach (zip(*plan), reduce over symbolic plan)")
+        if cname == "ServicingPoolingTrip":
+            s.assume_only("pooling state enter: body out of reach (zip(*plan), reduce over symbolic plan)")
+        else:
+            def dp_enter(a, r):
+                # verified from the body: every request of the plan is waiting, admits this vehicle (C10) and carries this
+                # vehicle's record afterwards (C17); the route leads from the vehicle to the first request (C07)
+                i = bound(IntT, "i_dpe")
+                plan = a.self.trip_plan
+                rid = Sym(plan.ty.elem, plan.e[i.e])[0]
+                veh = a.sim.vehicles.get(a.self.vehicle_id).val()
+                first = a.sim.requests.get(plan[0][0]).val()
+                s2 = r[1].val()
+                return {"access": forall([i], Implies(And(i >= 0, i < plan.len()), And(
+                            a.sim.requests.has(rid), grants(a.sim.requests.get(rid).val().membership, veh.membership)))),
+                        "record": forall([i], Implies(And(i >= 0, i < plan.len()), And(
+                            s2.requests.has(rid), s2.requests.get(rid).val().dispatched_vehicle == some(a.self.vehicle_id)))),
+                        "location": And(plan.len() > 0, a.sim.requests.has(plan[0][0]),
+                                        route_ok(a.self.route, geoid(veh), geoid(first)))}
+            for grp, props in (("access", ("C10",)), ("record", ("C17",)), ("location", ("C07",))):
+                s.ensures("enter_" + grp, (lambda grp: lambda a, r: Implies(ok(r), dp_enter(a, r)[grp]))(grp), props)
         s.requires("wf", WF_PRE)
 
         def pool_enter(a, r, cname=cname):
